@@ -178,6 +178,21 @@ type c19Step struct {
 	Ms     int64  `json:"ms,omitempty"`   // advance; -1: to the expiry of slot, -2: 1 ms before, -3: 1 ms after
 	Bad    bool   `json:"bad,omitempty"`  // put_service with a body that is not SP metadata
 	Omit   string `json:"omit,omitempty"` // put_user: attributes left out of the body ("groups" | "names" | "groups+names"): PUT replaces the record
+	// put_user: the body's "name" field names this other user (the URL says whose record it is; the body cannot say otherwise)
+	BodyName string `json:"body_name,omitempty"`
+}
+
+// c19Password is the password a put/seed step sets. "set72" is exactly as long as bcrypt reads (72 bytes), "set100" longer
+// (the API may refuse it; if it stores it, only that very string is the user's password).
+func c19Password(user string, ver int, kind string) string {
+	base := fmt.Sprintf("pw-%s-%d", user, ver)
+	switch kind {
+	case "set72":
+		return base + strings.Repeat("p", 72-len(base))
+	case "set100":
+		return base + strings.Repeat("q", 100-len(base))
+	}
+	return base
 }
 
 var c19Users = []string{"u0", "u1", "u2"}
@@ -220,11 +235,17 @@ func genC19(g *Rng, tier string) *Plan {
 			ver++
 			switch {
 			case apiPw && g.Bool(0.5):
-				st = c19Step{Op: "put_user", User: Pick(g, c19Users...), Pw: Pick(g, "set", "empty"), Ver: ver}
+				st = c19Step{Op: "put_user", User: Pick(g, c19Users...), Pw: Pick(g, "set", "set", "empty", "set72", "set100"), Ver: ver}
 			case g.Bool(0.5):
 				st = c19Step{Op: "put_user", User: Pick(g, c19Users...), Pw: "", Ver: ver, Omit: Pick(g, "", "", "groups", "names", "groups+names")} // no password field: stored hash is retained
+				if g.Bool(0.3) {
+					st.BodyName = Pick(g, c19Users...)
+					if st.BodyName == st.User {
+						st.BodyName = ""
+					}
+				}
 			default:
-				st = c19Step{Op: "seed_user", User: Pick(g, c19Users...), Pw: Pick(g, "set", "set", "none", "empty"), Ver: ver}
+				st = c19Step{Op: "seed_user", User: Pick(g, c19Users...), Pw: Pick(g, "set", "set", "none", "empty", "set72"), Ver: ver}
 			}
 		case 1:
 			st = c19Step{Op: "delete_user", User: Pick(g, c19Users...)}
@@ -237,7 +258,7 @@ func genC19(g *Rng, tier string) *Plan {
 		case 5:
 			st = c19Step{Op: "delete_shortcut", Sc: Pick(g, c19Scs...)}
 		case 6:
-			st = c19Step{Op: "login", User: Pick(g, c19Users...), Pw: Pick(g, "right", "right", "wrong", "empty", "other")}
+			st = c19Step{Op: "login", User: Pick(g, c19Users...), Pw: Pick(g, "right", "right", "right", "wrong", "empty", "other", "right+tail", "prefix72"), Cookie: Pick(g, "", "", "", "forged", "slot"), Slot: g.Intn(3)}
 		case 7:
 			st = c19Step{Op: "sso", SP: g.Intn(c19NSP), Cookie: Pick(g, "slot", "slot", "slot", "none", "forged"), Slot: g.Intn(3), Bind: Pick(g, "redirect", "post")}
 			if g.Bool(0.25) {
@@ -267,7 +288,7 @@ func genC19(g *Rng, tier string) *Plan {
 					steps = append(steps, c19Step{Op: "sso", SP: probeSP, Cookie: "slot", Slot: st.Slot, Bind: "redirect"})
 				}
 			case "delete_user", "put_user", "seed_user":
-				steps = append(steps, Pick(g, c19Step{Op: "login", User: st.User, Pw: "right"}, c19Step{Op: "sso", SP: probeSP, Cookie: "none", User: st.User, Pw: Pick(g, "right", "empty", "wrong"), Bind: "post"}))
+				steps = append(steps, Pick(g, c19Step{Op: "login", User: st.User, Pw: Pick(g, "right", "right", "other", "right+tail", "prefix72")}, c19Step{Op: "sso", SP: probeSP, Cookie: "none", User: st.User, Pw: Pick(g, "right", "empty", "wrong", "other", "right+tail"), Bind: "post"}))
 			case "put_service", "delete_service":
 				steps = append(steps, c19Step{Op: "sso", SP: g.Intn(c19NSP), Cookie: "slot", Slot: g.Intn(2), Bind: "redirect"})
 			case "put_shortcut", "delete_shortcut":
@@ -283,6 +304,25 @@ func genC19(g *Rng, tier string) *Plan {
 			c19Step{Op: "put_user", User: u, Pw: "", Ver: ver, Omit: Pick(g, "groups", "names", "groups+names")},
 			c19Step{Op: "login", User: u, Pw: "right"},
 			c19Step{Op: "sso", SP: 0, Cookie: "slot", Slot: -1, Bind: Pick(g, "redirect", "post")})
+	}
+	if g.Bool(0.15) {
+		// targeted: a PUT for one user whose body names another, then logins with either user's password
+		a, b := "u"+fmt.Sprint(g.Intn(3)), "u"+fmt.Sprint(g.Intn(3))
+		if a != b {
+			ver += 3
+			steps = append(steps, c19Step{Op: "seed_user", User: a, Pw: "set", Ver: ver - 2}, c19Step{Op: "seed_user", User: b, Pw: "set", Ver: ver - 1},
+				c19Step{Op: "put_user", User: a, Pw: Pick(g, "", "", "set"), Ver: ver, BodyName: b},
+				c19Step{Op: "login", User: a, Pw: "of:" + b}, c19Step{Op: "login", User: a, Pw: "right"}, c19Step{Op: "login", User: b, Pw: "right"})
+		}
+	}
+	if g.Bool(0.15) {
+		// targeted: somebody planted a cookie in the victim's browser before the victim logged in
+		u := Pick(g, c19Users...)
+		ver++
+		steps = append(steps, c19Step{Op: "seed_user", User: u, Pw: Pick(g, "set", "set72"), Ver: ver}, c19Step{Op: "put_service", Svc: "s0", SP: 0},
+			c19Step{Op: "sso", SP: 0, Cookie: "forged", Bind: "redirect"},
+			c19Step{Op: "login", User: u, Pw: Pick(g, "right", "right", "right+tail", "prefix72"), Cookie: "forged"},
+			c19Step{Op: "sso", SP: 0, Cookie: "forged", Bind: Pick(g, "redirect", "post")})
 	}
 	if g.Bool(0.3) {
 		// targeted: a fresh login, the clock moved to a chosen position around that session's expiry, then its cookie is used
@@ -448,6 +488,19 @@ func (w *c19World) password(user, kind string) string {
 		return "pw-" + user
 	case "wrong":
 		return "not-the-password"
+	case "of:u0", "of:u1", "of:u2":
+		// another user's current password
+		if u, ok := w.users[kind[3:]]; ok && u.HasPw && kind[3:] != user {
+			return u.Pw
+		}
+		return "pw-of-nobody"
+	case "right+tail", "prefix72":
+		// not the password: the password followed by something, or its first 72 bytes followed by something else
+		right := w.password(user, "right")
+		if kind == "prefix72" && len(right) > 72 {
+			return right[:72] + "Q-another-tail"
+		}
+		return right + "-tail"
 	case "empty":
 		return ""
 	case "other":
@@ -519,8 +572,10 @@ func (w *c19World) step(st c19Step, res *Result) (expected, observed c19Outcome,
 		u := samlidp.User{Name: a.Name, Email: a.Email, CommonName: a.CN, Surname: a.SN, GivenName: a.GN, Groups: a.Groups}
 		mu := mUser{A: a}
 		switch st.Pw {
-		case "set":
-			mu.HasPw, mu.Pw = true, fmt.Sprintf("pw-%s-%d", st.User, st.Ver)
+		case "set", "set72":
+			mu.HasPw, mu.Pw = true, c19Password(st.User, st.Ver, st.Pw)
+		case "set100":
+			mu.HasPw, mu.Pw = true, c19Password(st.User, st.Ver, "set72") // a hash cannot be made of more
 		case "empty":
 			mu.HasPw, mu.Pw = true, ""
 		}
@@ -548,18 +603,25 @@ func (w *c19World) step(st c19Step, res *Result) (expected, observed c19Outcome,
 			u.HasPw, u.Pw = old.HasPw, old.Pw
 		}
 		switch st.Pw {
-		case "set":
-			body["password"] = fmt.Sprintf("pw-%s-%d", st.User, st.Ver)
-			u.HasPw, u.Pw = true, fmt.Sprintf("pw-%s-%d", st.User, st.Ver)
+		case "set", "set72", "set100":
+			body["password"] = c19Password(st.User, st.Ver, st.Pw)
+			u.HasPw, u.Pw = true, c19Password(st.User, st.Ver, st.Pw)
 		case "empty":
 			body["password"] = ""
 			u.HasPw, u.Pw = true, ""
+		}
+		if st.BodyName != "" {
+			body["name"] = c19AttrsFor(st.BodyName, st.Ver).Name
 		}
 		key := "/users/" + st.User
 		prev := w.store.data[key]
 		rep = deliver(w.srv, "PUT", base+key, string(mustJSON(body)), "application/json", nil)
 		expected = c19Outcome{Class: "OK"}
-		if w.applied(key, prev, before) {
+		if st.Pw == "set100" && rep.Panic == nil && rep.Code >= 400 && w.store.fired == before && w.store.data[key] == prev {
+			// a password longer than the hash function reads may be refused; then nothing changed
+			expected = c19Outcome{Class: "ERROR"}
+			res.dontcare("password-longer-than-72-bytes-refused")
+		} else if w.applied(key, prev, before) {
 			w.users[st.User] = u
 		}
 	case "delete_user":
@@ -647,7 +709,11 @@ func (w *c19World) step(st c19Step, res *Result) (expected, observed c19Outcome,
 	case "login":
 		pw := w.password(st.User, st.Pw)
 		f := url.Values{"user": {st.User}, "password": {pw}}
-		rep = deliver(w.srv, "POST", base+"/login", f.Encode(), formCT, nil)
+		var cookies []*http.Cookie
+		if _, cv := w.liveSession(st); cv != "" {
+			cookies = []*http.Cookie{{Name: "session", Value: cv}} // the browser still holds a cookie (its own, a dead one, or one somebody planted)
+		}
+		rep = deliver(w.srv, "POST", base+"/login", f.Encode(), formCT, cookies)
 		if w.credsValid(st.User, pw) {
 			expected = c19Outcome{Class: "SESSION", Detail: w.users[st.User].A.Email}
 		} else {
@@ -831,6 +897,10 @@ func (w *c19World) step(st c19Step, res *Result) (expected, observed c19Outcome,
 					exp = stored.ExpireTime.Sub(c19Epoch).Milliseconds()
 				}
 				snap := w.users[st.User].A
+				if _, forged := w.liveSession(c19Step{Cookie: "forged"}); c.Value == forged {
+					// the new session got the ID a client chose: whoever planted that cookie now holds the session
+					observed = c19Outcome{Class: "SESSION_ID_FROM_CLIENT", Detail: c.Value}
+				}
 				w.sessions = append(w.sessions, mSession{Cookie: c.Value, Snap: snap, ExpireMs: exp})
 			}
 		}
@@ -1282,6 +1352,10 @@ func c19CheckStep(res *Result, i int, phase string, st c19Step, exp, obs c19Outc
 	// safety direction first: these are violations under every fault
 	if obs.Class == "ASSERTION" {
 		res.violate(i, "unauthorised-assertion", "C19/unauthorised-assertion/"+st.Op+"/expected-"+exp.Class, exp.String(), obs.String(), phase)
+		return false
+	}
+	if obs.Class == "SESSION_ID_FROM_CLIENT" {
+		res.violate(i, "session-fixation", "C19/session-id-chosen-by-client/"+st.Op, "a session ID the server generated", "the ID the client presented", phase)
 		return false
 	}
 	if obs.Class == "SESSION" {
